@@ -231,17 +231,17 @@ pub struct Batch { pub ghost ops: Seq<Op>, pub x: u8 }
 pub uninterp spec fn commit_ok(ops: Seq<Op>) -> bool;
 impl Batch {
     #[verifier::external_body]
-    pub fn put_kv<K: VfBytes, V: VfBytes>(&mut self, key: K, value: V) -> (r: Result<(), DbError>)
+    pub fn put_kv<K: VfBytes, V: VfBytes>(&mut self, key: K, value: V) -> (r: core::result::Result<(), DbError>)
         ensures r is Ok, final(self).ops == old(self).ops.push(Op::Put(key.s_b(), value.s_b())) { unimplemented!() }
     #[verifier::external_body]
-    pub fn put<K: VfBytes, V: VfBytes>(&mut self, key: K, value: V) -> (r: Result<(), DbError>)
+    pub fn put<K: VfBytes, V: VfBytes>(&mut self, key: K, value: V) -> (r: core::result::Result<(), DbError>)
         ensures r is Ok, final(self).ops == old(self).ops.push(Op::Put(key.s_b(), value.s_b())) { unimplemented!() }
     #[verifier::external_body]
-    pub fn delete<K: VfBytes>(&mut self, key: K) -> (r: Result<(), DbError>)
+    pub fn delete<K: VfBytes>(&mut self, key: K) -> (r: core::result::Result<(), DbError>)
         ensures r is Ok, final(self).ops == old(self).ops.push(Op::Del(key.s_b())) { unimplemented!() }
     // GATE: a batch is committed only with the evidence that it is exactly the batch some storage operation prescribes
     #[verifier::external_body]
-    pub fn commit(self) -> (r: Result<(), DbError>)
+    pub fn commit(self) -> (r: core::result::Result<(), DbError>)
         requires commit_ok(self.ops)
         ensures r is Ok { unimplemented!() }
 }
